@@ -390,6 +390,10 @@ func (c *HostClient) Do(ctx context.Context, req *protocol.Request, resp *protoc
 
 	atomic.AddInt32(&c.pendingRequests, 1)
 	req.Options().StartRequest()
+	// A body stream is consumed (and dropped from the request) by the first attempt that writes it:
+	// afterwards req.IsBodyStream() is false, DefaultRetryIf no longer sees that the body cannot be
+	// rewound, and a further attempt would send the request with an empty body.
+	hadBodyStream := req.IsBodyStream()
 	for {
 		select {
 		case <-ctx.Done():
@@ -417,7 +421,7 @@ func (c *HostClient) Do(ctx context.Context, req *protocol.Request, resp *protoc
 		// keep-alive connection on timeout.
 		//
 		// Apache and nginx usually do this.
-		if canIdempotentRetry && client.DefaultRetryIf(req, resp, err) && errors.Is(err, errs.ErrBadPoolConn) {
+		if canIdempotentRetry && !hadBodyStream && client.DefaultRetryIf(req, resp, err) && errors.Is(err, errs.ErrBadPoolConn) {
 			connAttempts++
 			continue
 		}
